@@ -299,6 +299,10 @@ def check(tree, rep, tier='quick', seed=0):
     stale = [k for k in exc if k not in used_exc]
     for k in stale:
         rep.notes.append(f'label exception no longer needed: {k}')
+    # the generic filler fills each box from the line computed for that box and that form instance (nothing remembered across copies)
+    from ..core import get_core
+    from .. import corerules as R
+    R.k23f_filling_keeps_no_state(get_core(tree), rep)
     rep.floor('mappings checked', n_map, 1500)
     rep.floor('templates parsed', n_tpl, 36)
     rep.floor('mappings with a template label', n_label, 1000)
